@@ -47,6 +47,7 @@ PredictedOK(e, s) ==
 ObservedOK(e) == IF e.op = "retrieve" THEN e.got ELSE e.ok
 
 Notes(e, s) ==
+  IF e.op = "crash" THEN Clause("node_crashed_while_handling_peer_data", FALSE) ELSE
   IF e.op \in {"retrieve", "pyramid"}
   THEN    Clause("acceptance_differs_from_model", ObservedOK(e) \in PredictedOK(e, s))
        \o Clause("delivered_reply_is_not_the_first_acceptable_one",
